@@ -3,6 +3,8 @@ package prop
 import (
 	"bytes"
 	"fmt"
+	"hash/crc32"
+	"math/rand"
 	"strings"
 
 	"github.com/biogo/hts/bgzf"
@@ -63,7 +65,79 @@ func c01Plan(seed int64, tier string) []core.Case {
 			}
 		}
 	}
+	// crc-zero: a stream in which one block's data has CRC-32 0 (four forged
+	// trailing bytes): nothing about a block's checksum value makes it special
+	for i := 0; i < 6; i++ {
+		cs = append(cs, core.Case{Kind: "crc-zero", Seed: core.SubSeed(seed, "c01crc0", i), P: map[string]int64{"wc": int64(1 + i%3), "rd": int64(i % 4), "level": int64(i%3 - 1)}})
+	}
 	return cs
+}
+
+// forgeCRC0 returns four bytes which, appended to m, give the whole a CRC-32 of 0.
+func forgeCRC0(m []byte) []byte {
+	tab := crc32.IEEETable
+	var rev [256]byte
+	for i := 0; i < 256; i++ {
+		rev[tab[i]>>24] = byte(i)
+	}
+	reg := uint32(0xffffffff) // the register value that finalises to 0
+	var idx [4]byte
+	for i := 3; i >= 0; i-- {
+		k := rev[reg>>24]
+		idx[i] = k
+		reg = (reg ^ tab[k]) << 8
+	}
+	cur := crc32.ChecksumIEEE(m) ^ 0xffffffff
+	out := make([]byte, 4)
+	for i := 0; i < 4; i++ {
+		out[i] = byte(cur) ^ idx[i]
+		cur = (cur >> 8) ^ tab[idx[i]]
+	}
+	return out
+}
+
+func c01CRCZero(r *core.Result, c core.Case) *core.Result {
+	rng := c.Rng()
+	wc, rd, level := c.Int("wc"), c.Int("rd"), c.Int("level")
+	mk := func(n int) []byte { b := make([]byte, n); gen.Fill(rng, b, 1+rng.Intn(2)); return b }
+	a, z, b := mk(1+rng.Intn(3000)), mk(1+rng.Intn(60000)), mk(1+rng.Intn(3000))
+	z = append(z, forgeCRC0(z)...)
+	cfg := fmt.Sprintf("crc-zero wc=%d rd=%d level=%d blocks of %d, %d (CRC-32 %#x), %d bytes", wc, rd, level, len(a), len(z), crc32.ChecksumIEEE(z), len(b))
+	r.FP = core.Hash(cfg, c.Seed)
+	r.Sample = map[string]any{"config": cfg}
+	if crc32.ChecksumIEEE(z) != 0 {
+		r.Violate("harness|forge", "%s: the forged block does not have CRC-32 0", cfg)
+		return r
+	}
+	r.Nontrivial = true
+	var out bytes.Buffer
+	w, _ := bgzf.NewWriterLevel(&out, level, wc)
+	for _, p := range [][]byte{a, z, b} {
+		if _, err := w.Write(p); err != nil {
+			r.Violate("writer|call-error", "%s: %v", cfg, err)
+			return r
+		}
+		if err := w.Flush(); err != nil {
+			r.Violate("writer|call-error", "%s: Flush: %v", cfg, err)
+			return r
+		}
+	}
+	if err := w.Close(); err != nil {
+		r.Violate("writer|close-error", "%s: %v", cfg, err)
+		return r
+	}
+	model := append(append(append([]byte{}, a...), z...), b...)
+	rr, err := bgzf.NewReader(bytes.NewReader(out.Bytes()), rd)
+	if err != nil {
+		r.Violate("reader|new", "%s: %v", cfg, err)
+		return r
+	}
+	if cls, detail := readBack(rr, model, rng); cls != "" {
+		r.Violate("roundtrip|"+cls, "%s: %s", cfg, detail)
+	}
+	rr.Close()
+	r.Count("crc_zero_streams", 1)
+	return r
 }
 
 // c01Limit writes some data, one full incompressible block whose member is
@@ -134,6 +208,9 @@ func c01Run(c core.Case) *core.Result {
 	if c.Kind == "limit" {
 		return c01Limit(r, c)
 	}
+	if c.Kind == "crc-zero" {
+		return c01CRCZero(r, c)
+	}
 	rng := c.Rng()
 	maxTotal := 6 * gen.BlockSize
 	script := gen.RandScript(rng, 14, maxTotal)
@@ -153,6 +230,14 @@ func c01Run(c core.Case) *core.Result {
 			if err != nil {
 				r.Violate("writer|new", "NewWriterLevel(level=%d, wc=%d): %v", level, wc, err)
 				return
+			}
+			if c.Seed%4 == 0 {
+				// gzip header fields (Latin-1 name and comment, other extra
+				// subfields, time, OS): the reader has to get past them
+				hs := randHeader(rand.New(rand.NewSource(c.Seed)))
+				hs.apply(w)
+				cfg += " header{" + hs.desc + "}"
+				r.Count("streams_with_header_fields", 1)
 			}
 			if err := runScript(w, script, payloads); err != nil {
 				r.Violate("writer|call-error", "%s: %v (script%s)", cfg, err, script.String())
